@@ -959,6 +959,131 @@ theorem digestEnc_ascii (b : Bytes) (h : ∀ c ∈ b, c < 128) : Ref.digestEnc b
     | case6 c d rest hc _ => exact absurd (h c (by simp)) hc
   simp [Ref.digestEnc, key]
 
+/-! ## FAST tokens across connections -/
+
+/-- invariant of the client object between operations -/
+def FastInv (st : FastSt) : Prop :=
+  (∀ m s i, st.token = some (m, s) → st.issued = some i → m = i)
+  ∧ (∀ r u, st.cur = some (r, u) → st.requested = r ∧ ∀ h, u = some h → ∃ s, st.token = some (h, s))
+
+theorem fastInv_init (u p : Bytes) : FastInv { user := u, pass := p } := by
+  constructor
+  · intro m s i h; simp at h
+  · intro r u h; simp at h
+
+theorem fastInv_step (fam : Nat → Crypto) (st : FastSt) (op : FastOp) (hinv : FastInv st)
+    (hw : ∀ a b, op = .setCreds a b → st.cur = none) : FastInv (fastStep fam st op).1 := by
+  obtain ⟨hA, hB⟩ := hinv
+  cases op with
+  | setCreds hasPw token =>
+    have hc := hw hasPw token rfl
+    simp only [fastStep]
+    constructor
+    · intro m s i ht hi
+      simp only at ht hi
+      rw [ht] at hi
+      simpa using hi
+    · intro r u h
+      simp only [hc] at h
+      cases h
+  | login en offer =>
+    simp only [fastStep]
+    cases htok : st.token with
+    | none =>
+      simp only []
+      split
+      · refine ⟨?_, ?_⟩
+        · intro m s i ht; simp [htok] at ht
+        · intro r u h
+          simp only [Option.some.injEq, Prod.mk.injEq] at h
+          obtain ⟨h1, h2⟩ := h
+          exact ⟨h1, fun hh hu => by rw [← h2] at hu; cases hu⟩
+      · refine ⟨?_, ?_⟩
+        · intro m s i ht; simp [htok] at ht
+        · intro r u h; simp at h
+    | some tok =>
+      simp only []
+      split
+      · split
+        · refine ⟨?_, ?_⟩
+          · intro m s i ht hi; exact hA m s i (by simpa [htok] using ht) hi
+          · intro r u h
+            simp only [Option.some.injEq, Prod.mk.injEq] at h
+            obtain ⟨h1, h2⟩ := h
+            refine ⟨h1, fun hh hu => ?_⟩
+            rw [← h2] at hu
+            simp only [Option.some.injEq] at hu
+            exact ⟨tok.2, by simp [htok, ← hu]⟩
+        · refine ⟨?_, ?_⟩
+          · intro m s i ht hi; exact hA m s i (by simpa [htok] using ht) hi
+          · intro r u h; simp at h
+      · split
+        · refine ⟨?_, ?_⟩
+          · intro m s i ht hi; exact hA m s i (by simpa [htok] using ht) hi
+          · intro r u h
+            simp only [Option.some.injEq, Prod.mk.injEq] at h
+            obtain ⟨h1, h2⟩ := h
+            exact ⟨h1, fun hh hu => by rw [← h2] at hu; cases hu⟩
+        · refine ⟨?_, ?_⟩
+          · intro m s i ht hi; exact hA m s i (by simpa [htok] using ht) hi
+          · intro r u h; simp at h
+  | success tok =>
+    simp only [fastStep]
+    cases hcur : st.cur with
+    | none => exact ⟨hA, fun r u h => hB r u h⟩
+    | some c =>
+      obtain ⟨hreq, hused⟩ := hB c.1 c.2 (by rw [hcur])
+      cases tok with
+      | none =>
+        simp only []
+        exact ⟨hA, fun r u h => by simp at h⟩
+      | some sec =>
+        simp only []
+        cases hr : st.requested with
+        | some r =>
+          simp only []
+          refine ⟨?_, fun r' u h => by simp at h⟩
+          intro m s i ht hi
+          simp only [Option.some.injEq, Prod.mk.injEq] at ht
+          rw [← hreq, hr] at hi
+          have h2 : r = i := by simpa using hi
+          have h1 := ht.1
+          omega
+        | none =>
+          cases htok : st.token with
+          | none =>
+            simp only []
+            exact ⟨fun m s i ht => by simp [htok] at ht, fun r u h => by simp at h⟩
+          | some old =>
+            simp only []
+            refine ⟨?_, fun r' u h => by simp at h⟩
+            intro m s i ht hi
+            simp only [Option.some.injEq, Prod.mk.injEq] at ht
+            rw [← hreq, hr] at hi
+            have hi' : c.2 = some i := by simpa using hi
+            obtain ⟨s', hs'⟩ := hused i hi'
+            rw [htok] at hs'
+            have h3 : old.1 = i := by
+              have := congrArg (fun o => o.map Prod.fst) hs'
+              simpa using this
+            have h1 := ht.1
+            omega
+  | fail =>
+    simp only [fastStep]
+    exact ⟨hA, fun r u h => by simp at h⟩
+
+theorem fastInv_run (fam : Nat → Crypto) (st : FastSt) (ops : List FastOp) (hinv : FastInv st)
+    (hw : wellTimed fam st ops = true) : FastInv (fastRun fam st ops) := by
+  induction ops generalizing st with
+  | nil => exact hinv
+  | cons op t ih =>
+    simp only [wellTimed, Bool.and_eq_true] at hw
+    apply ih _ _ hw.2
+    apply fastInv_step fam st op hinv
+    intro a b hop
+    subst hop
+    simpa using hw.1
+
 /-! ## a toy hash family for the non-vacuity examples (fixed output length 2, not constant) -/
 
 def toyCrypto : Crypto :=
@@ -966,5 +1091,7 @@ def toyCrypto : Crypto :=
 
 /-- user `u`, password `p`, client nonce `x` -/
 def toyCred : Cred := { user := [117], pass := [112], cnonce := [120], host := [104], service := [120, 109, 112, 112] }
+
+def toyFam (_ : Nat) : Crypto := toyCrypto
 
 end Qx.C06
